@@ -59,6 +59,54 @@ class WithUnpackedFixed:
     t: typing.Tuple[int, typing.Unpack[typing.Tuple[str, str]]]
 
 
+# ---- NamedTuple members / TypedDict keys NAMED LIKE a sibling dataclass field that carries field-level options: the options
+# belong to the field that declares them, a member of the same name inside another field's type is described by its own type
+import datetime as _dt
+
+
+def _as_timestamp(value: _dt.datetime) -> float:
+    return value.timestamp()
+
+
+class Span(typing.NamedTuple):
+    start: _dt.datetime
+    end: _dt.datetime
+
+
+class SpanTD(typing.TypedDict):
+    start: _dt.datetime
+    note: str
+
+
+@dataclasses.dataclass
+class Job:
+    start: _dt.datetime = dataclasses.field(metadata={"serialize": _as_timestamp})
+    window: Span = Span(_dt.datetime(2024, 1, 1), _dt.datetime(2024, 1, 2))
+    windows: typing.List[Span] = dataclasses.field(default_factory=list)
+    td: typing.Optional[SpanTD] = None
+
+
+class InnerNT(typing.NamedTuple):
+    a: int
+    b: str
+
+
+class OuterNT(typing.NamedTuple):
+    i: InnerNT
+    n: int
+
+
+@dataclasses.dataclass
+class NTHolder:
+    o: OuterNT = dataclasses.field(metadata={"serialize": "as_dict"})
+    p: OuterNT = OuterNT(InnerNT(1, "x"), 2)
+
+
+_D1, _D2 = _dt.datetime(2024, 2, 29, 1, 2, 3), _dt.datetime(2025, 1, 1)
+SIBLING_SUBJECTS = [("Job (member named like a field with a serialize option)", Job,
+                     [Job(_D1), Job(_D2, Span(_D1, _D2), [Span(_D1, _D1)], {"start": _D1, "note": "n"})]),
+                    ("NTHolder (NamedTuple nested in a NamedTuple under as_dict)", NTHolder, [NTHolder(OuterNT(InnerNT(3, "y"), 4))])]
+
 FLAG_VALUES = [WithFlags(Perm.R, IPerm.W), WithFlags(Perm.R | Perm.W, IPerm.R | IPerm.W), WithFlags(Perm(0), IPerm(0))]
 UNPACKED_VALUES = [WithUnpackedFixed((1, "a", "b"))]
 DISTINCT = [(PairG, "generic specialisations Box[int] / Box[str]"), (PairN, "two distinct classes named Same")]
